@@ -1,5 +1,7 @@
 """C16: tree generators return valid trees of the requested size and shape."""
 from lib import *
+import os, re, shutil
+import cli
 
 PROP = "C16"
 LEVEL = "proof"
@@ -75,3 +77,105 @@ MATCHERS = {
     # rejected) returns the error of RerootFirst ("No nodes with 3 neighors ...") together with the tree
     "C16-unrooted-2tips-rejected": lambda c: _is(c, ("uniform", "yule", "caterpillar"), 2, False),
 }
+
+# ---------------------------------------------------------------- the commands (extra)
+
+def _parse_newick(s):
+    """minimal strict Newick reader: nested lists of names; raises on malformed text"""
+    pos = [0]
+    def node():
+        if pos[0] < len(s) and s[pos[0]] == "(":
+            pos[0] += 1
+            ch = [node()]
+            while s[pos[0]] == ",":
+                pos[0] += 1
+                ch.append(node())
+            if s[pos[0]] != ")":
+                raise ValueError("expected )")
+            pos[0] += 1
+            label()
+            return ch
+        return label()
+    def label():
+        st = pos[0]
+        while pos[0] < len(s) and s[pos[0]] not in ",();":
+            pos[0] += 1
+        lab = s[st:pos[0]]
+        if lab.count(":") > 1:
+            raise ValueError("two lengths on one node")
+        if ":" in lab:
+            float(lab.split(":")[1])
+            if float(lab.split(":")[1]) < 0:
+                raise ValueError("negative length")
+        return lab.split(":")[0]
+    t = node()
+    if s[pos[0]:].strip() != ";":
+        raise ValueError("trailing text")
+    return t
+
+def _tips(t):
+    return [t] if isinstance(t, str) else [x for c in t for x in _tips(c)]
+
+def _shape_ok(t, rooted, top=True):
+    if isinstance(t, str):
+        return True
+    want = (2 if rooted else 3) if top else 2
+    return len(t) == want and all(_shape_ok(c, rooted, False) for c in t)
+
+def extra(tier, seed, st):
+    """the generate commands at and around the documented minimum: no crash, an error message below the
+    minimum, a parsable binary tree with the requested tips from the minimum on"""
+    fails = []
+    info = {"evaluations": 0, "distinct_nontrivial": 0, "commands": {}}
+    ok, err = cli.build_gotree()
+    if not ok:
+        return [("build", "gotree no longer builds: " + err[-500:], None)], info
+    d = cli.scratch("c16x-")
+    try:
+        runs = []
+        for cmd, flag, minu, minr in [("uniformtree", "-l", 2, 3), ("yuletree", "-l", 2, 3), ("caterpillartree", "-l", 2, 3),
+                                      ("balancedtree", "-d", 1, 1), ("startree", "-l", 2, None)]:
+            for rooted in ([False, True] if minr is not None else [False]):
+                for n in range(0, 7):
+                    runs.append((cmd, flag, n, rooted, n >= (minr if rooted else minu)))
+        for cmd, flag, n, rooted, valid in runs:
+            argv = ["generate", cmd, flag, str(n), "--seed", str(seed % 100000 + n)] + (["-r"] if rooted else [])
+            rc, so, se = cli.run(argv, d)
+            so, se = so.decode("utf-8", "replace"), se.decode("utf-8", "replace")
+            info["evaluations"] += 1
+            name = "%s %s %d %s" % (cmd, flag, n, "rooted" if rooted else "unrooted")
+            body = {"argv": argv, "rc": rc, "stdout": so[:500], "stderr": se[:500]}
+            if "panic:" in se or "goroutine " in se or rc < 0 or rc == 2:
+                fails.append((name, "`gotree %s` crashed: %s" % (" ".join(argv), se[:200]), body))
+                continue
+            if not valid:
+                if "(" in so and ";" in so and "Error" not in so:
+                    fails.append((name, "`gotree %s`: a size below the documented minimum yields a tree" % " ".join(argv), body))
+                elif "rror" not in se:
+                    fails.append((name, "`gotree %s`: no error message for a size below the documented minimum" % " ".join(argv), body))
+                continue
+            ntips = 2 ** n if cmd == "balancedtree" else n
+            try:
+                if rc != 0:
+                    raise ValueError("exit status %d: %s" % (rc, se[:120]))
+                t = _parse_newick(so.strip())
+                tips = _tips(t)
+                if sorted(tips) != sorted("Tip%d" % i for i in range(ntips)):
+                    raise ValueError("tips %s" % tips[:8])
+                if cmd != "startree" and ntips > 2 and not _shape_ok(t, rooted):
+                    raise ValueError("not binary / wrong root degree")
+                info["distinct_nontrivial"] += 1
+            except Exception as e:
+                fails.append((name, "`gotree %s`: a valid size does not yield a tree with the requested tips (%s); output %r" %
+                              (" ".join(argv), e, so[:80]), body))
+    finally:
+        shutil.rmtree(d, ignore_errors=True)
+    return fails, info
+
+def _xname(c):
+    return ((c.get("meta") or {}).get("extra") or "")
+
+MATCHERS["C16-unrooted-2tips-rejected"] = (lambda old: (lambda c: old(c) or _xname(c) in (
+    "uniformtree -l 2 unrooted", "yuletree -l 2 unrooted", "caterpillartree -l 2 unrooted")))(MATCHERS["C16-unrooted-2tips-rejected"])
+# `gotree generate balancedtree -d 1` (unrooted): UnRoot makes the tip Tip1 the root; Newick() prints "Tip0:lenTip1;"
+MATCHERS["C16-balanced-depth1-unrooted-newick"] = lambda c: _xname(c) == "balancedtree -d 1 unrooted"
